@@ -42,7 +42,7 @@ def gen(r, tier, i):
     flowless0 = r.random() < 0.2
     return {'cell_ts': r.choice([0.5, 1.0, 1.5, 0.75]), 'dir_as': 'process' if flowless0 else r.choice(['process', 'process', 'step']),
             'initial_flowless': flowless0, 'script': script, 'base': r.choice([[], [], ['env']]),
-            'deriver': r.choice([None, 'steps', 'processes']), 'viewers': r.random() < 0.3, 'poke': r.random() < 0.4, 'nested_cells': r.random() < 0.4, 'gen_legacy': r.random() < 0.3, 'dir_key': r.choice(['dir', 'dir', '0dir']),
+            'deriver': r.choice([None, 'steps', 'processes']), 'viewers': r.random() < 0.3, 'poke': r.random() < 0.4, 'nested_cells': r.random() < 0.4, 'gen_legacy': r.random() < 0.3, 'dir_key': r.choice(['dir', 'dir', '0dir']), 'cell_rev': r.random() < 0.5,
             'viewer_ts': 0.5, 'run': run_len, 'extra': 3.0}
 
 
@@ -143,6 +143,7 @@ def run(spec):
         for iid, rec in walks[-1][1].items():
             if rec[3] == 'process' and cellish(rec[2]) and born[iid] < final:
                 V.check('starts_at_creation', iid in inv, lambda: ('live process %s (since %r) was never invoked' % (rec[2], born[iid]),))
+    ledger_base = {}
     # steps: exactly once per phase
     bounds = [i for i, ev in emits]
     prev_i = -1
@@ -186,6 +187,25 @@ def run(spec):
             for key, cell in (node or {}).items():
                 st = cell.get('st', {}) if isinstance(cell, dict) else {}
                 path = tuple(spec['base']) + (port, key)
+                # the cell's ledger: every process instance that ever wrote to it numbers its updates; they
+                # arrive in order, none twice (a clause of C01, harvested by C01's check)
+                # Judged from the first row in which this incarnation of the cell (its process instance) is seen:
+                # what the ledger held then is inherited (division) or arrived in the batch that created the
+                # cell (a compartment replacing one deleted in the same batch may receive the update the deleted
+                # process had computed for that very time - the order inside a batch is not specified).
+                led = [iid for iid, rec in w.items() if rec[0] == path + ('led',)]
+                log = st.get('log', []) or []
+                base = ledger_base.setdefault((path, led[0] if led else None), len(log))
+                last = {}
+                bad_tok = None
+                for tok in log[base:]:
+                    if isinstance(tok, (list, tuple)) and len(tok) >= 2:
+                        if tok[1] <= last.get(tok[0], 0):
+                            bad_tok = tok
+                        last[tok[0]] = tok[1]
+                V.check('ledger_in_order', bad_tok is None,
+                        lambda: ('row at t=%r, cell %s: the ledger holds update %r after a later one of the same process' % (t, key, bad_tok),
+                                 [tuple(x[:2]) for x in st.get('log', [])][-8:]))
                 f1 = [iid for iid, rec in w.items() if rec[0] == path + ('f1',)]
                 f2 = [iid for iid, rec in w.items() if rec[0] == path + ('f2',)]
                 d1 = [iid for iid, rec in w.items() if rec[0] == path + ('drv',)]
